@@ -401,11 +401,19 @@ func (setSelf *SetForInterfaceDef) ContainsValue(input interface{}) bool {
 
 // IsSubsetByKey returns true or false by checking if set1 is a subset of set2
 func (setSelf *SetForInterfaceDef) IsSubsetByKey(input *SetForInterfaceDef) bool {
+	if input == nil {
+		return false
+	}
+
 	return IsSubsetMapByKeyForInterface(*setSelf, *input)
 }
 
 // IsSupersetByKey returns true or false by checking if set1 is a superset of set2
 func (setSelf *SetForInterfaceDef) IsSupersetByKey(input *SetForInterfaceDef) bool {
+	if input == nil {
+		return false
+	}
+
 	return IsSupersetMapByKeyForInterface(*setSelf, *input)
 }
 
